@@ -256,7 +256,8 @@ def main():
             rp = json.load(f)
         if 'crawl' in rp['replay']:
             from checks import c02b_crawl
-            res = par.run_jobs('checks.c02b_crawl:worker', [{'seed': 0, 'replay': rp['replay']}], 1, timeout=300)
+            res = par.run_jobs('checks.c02b_crawl:worker', [{'seed': 0, 'replay': rp['replay'],
+                                                             '_env': {'PYTHONHASHSEED': rp['replay'].get('hashseed', 0)}}], 1, timeout=300)
         else:
             res = par.run_jobs(target, [{'seed': 0, 'replay': rp['replay']}], 1, timeout=300)
     else:
